@@ -21,29 +21,37 @@ To measure the machinery against realistic breakage, fresh sub-agents were each 
 (statement and quantifier), the descriptions of the changes to `/repo` already tried for it, and their own scratch git
 worktree of `/repo` — nothing from `/verif` — and asked for small, plausible changes that break the property, still
 compile, pass the existing 46 tests and need something specific to manifest, each with a demonstration test that fails
-on the changed tree and passes on the original.  Seven rounds were run (`vf/seedprompts.py` writes the prompts): rounds
-1–3 one change per agent (19 + 19 + 12 agents; round 2 asked for "a less central code path", round 3 for a different
-clause or mechanism than those already tried), rounds 4–7 two independent changes per agent for all 19 properties
-(round 5 asked for glue code: error paths, defaults, the less-used twin of two similar functions, rarely-set fields;
-round 6 for effects that need a SEQUENCE of operations or a COMBINATION of inputs, and for helpers shared by several
-callers; round 7 for boundary values, rarely used entry points and small 'harmless' conveniences).  Every returned change was confirmed by me in its worktree (`vf/seedconfirm.sh` / `vf/seedconfirm2.sh`:
-build, existing suite, demo fails on the changed tree and passes on the original; one concurrency demo needs `-race`).
-{n} distinct changes are kept under `seeded/<id>/` (`patch.diff`, the demo test with its two outputs, `meta.json`,
-`result.json`); three round-2 answers repeated a round-1 change and were not kept twice.  `vf/seedtest.py <id>`
-applies a patch to `/repo`, runs the checks and restores `/repo`; nothing was ever committed there.
+on the changed tree and passes on the original.  Eleven rounds were run (`vf/seedprompts.py` writes the prompts and holds
+the emphasis of each round verbatim): rounds 1–3 one change per agent (19 + 19 + 12 agents; round 2 asked for "a less
+central code path", round 3 for a different clause or mechanism than those already tried), rounds 4–11 two independent
+changes per agent for all 19 properties — round 5 glue code (error paths, defaults, the less-used twin of two similar
+functions, rarely-set fields), round 6 effects that need a SEQUENCE of operations or a COMBINATION of inputs and helpers
+shared by several callers, round 7 boundary values and rarely used entry points, round 8 HTTP-level details and
+properties of collections, round 9 defensive validation, state outside a function's arguments and the less common of
+two encodings, round 10 two cooperating sites that each look fine alone, faults at a particular point and what an
+earlier request left behind, round 11 changes that ADD NO CODE PATH (an operator, a constant, the order of two
+statements, which of two variables is used, a struct tag) — the kind neither a coverage gate nor a pinned inventory can
+see.  Every returned change was confirmed by me in its worktree (`vf/seedconfirm.sh` / `vf/seedconfirm2.sh`: build,
+existing suite, demo fails on the changed tree and passes on the original; one concurrency demo needs `-race`).
+{n} distinct changes are kept under `seeded/<id>/` (`patch.diff` — rebased where a later `fix:` commit touched the same
+lines, the original kept as `patch.orig*.diff` —, the demo test with its two outputs, `meta.json`, `result.json`);
+three round-2 answers repeated a round-1 change and were not kept twice; one round-10 answer aimed at C05 is kept as
+the C01 change it is.  `vf/seedtest.py <id>` applies a patch to a clone of `/repo`, runs the checks and restores it
+(`vf/mkscratch.sh` makes scratch copies of `/verif` wired to their own clone, so that several run side by side and
+`/repo` itself is never touched).
 
 **Result: {"all %d are" % n if not undetected else "%d of %d are" % (n - len(undetected), n)} reported by the property's own quick check** — {n - len(missed)} at first try, {len(missed)} only after a
-check was strengthened (rounds 1 to 7: 3 of 19, 8 of 16, 6 of 12, 9 of 38, 12 of 38, 7 of 38, 14 of 38) — the narrower and
-the more "glue-like" the trigger asked for, the more often a generator lacked the input class.  Every miss was a gap in
-a generator (an input class nobody generated: a root spelled with a trailing slash, a tag that already looks quoted, a
-body of undeclared length, a wrapped error, a value reused across two calls …) or in a judge (a difference computed
-but attributed to another property only); **no miss was a wrong theorem, and no strengthening loosened anything**.
-After each round all kept changes were re-run (`vf/seedtest.py` over `seeded/*`): none regressed{"" if not undetected else " except " + ", ".join(undetected)}.
+check was strengthened (per round, missed at first: 3 of 19, 8 of 16, 6 of 12, 9 of 38, 12 of 38, 7 of 38, 14 of 38,
+14 of 38, about as many in round 9, 12 of 38 in round 10 with the machinery as it stood, 9 of 38 in round 11 with the
+coverage gate and the pinned inventories in place — of the 12 round-10 misses those two mechanisms alone report 6).
+Every miss was a gap in a generator (an input class nobody generated) or in a judge (a difference computed but
+attributed to another property only); **no miss was a wrong theorem, and no strengthening loosened anything**.
+After each round all kept changes were re-run (`vf/seedtest.py` over `seeded/*`, last over all {n} after round 11){"" if not undetected else "; not reported in that run: " + ", ".join(undetected)}.
 How a change is reported: most by a judged violation class with a counterexample replay; table- or shape-changing ones
-also (or only) by a proof obligation over the regenerated definitions (Tie A: `theorems=0/N`, e.g. C18-d's package
-variable, C14-h's second receive on the upload channel); a few by a correspondence mismatch only (model and code
-differ on an input the specification does not judge, e.g. C14-f).  The table is generated (`vf/seedtable.py`);
-"classes" are the violation classes the Lean judge printed.
+also (or only) by a proof obligation over the regenerated definitions or pinned tables (Tie A: `theorems=k/N`, e.g.
+C18-d's package variable, C14-h's second receive on the upload channel, C14-p's new `s[0]`); some by a correspondence
+mismatch or by source blocks no generated input executes (coverage gate) — these end in `no-failing-input-found`.  The
+table is generated (`vf/seedtable.py`); "classes" are the violation classes the Lean judge printed.
 
 {table}
 What was strengthened, by miss (from `seeded/*/meta.json`):
